@@ -6,5 +6,5 @@ R="$1"; P="$2"; shift; shift
 cd "$(dirname "$0")/.."
 WT=/tmp/w$R-$P
 tools/confirm_seeded.sh $WT > /root/confirm-r$R-$P.log 2>&1
-(cd $WT && git diff -- logos-codegen src logos-derive logos-cli) > /root/r$R-$P.diff
+(cd $WT && git add -N -- logos-codegen src logos-derive logos-cli 2>/dev/null; git diff -- logos-codegen src logos-derive logos-cli) > /root/r$R-$P.diff
 SB=t$P tools/try_seeded_sb.sh /root/r$R-$P.diff "$@" > /root/try-r$R-$P.log 2>&1
